@@ -10,7 +10,7 @@ def plan(tier, seed):
     shards = []
     nsess = 12 if quick else 14
     for i in range(nsess):
-        shards.append(dict(bin=("tsan", "c09"), args=["--mode", "sessions", "--cases", 7 if quick else 350,
+        shards.append(dict(bin=("tsan", "c09"), args=["--mode", "sessions", "--cases", 12 if quick else 350,
                                                      "--engine", build.binpath("tsan", "texel"), "--net", net]))
     for i in range(16 - nsess):
         shards.append(dict(bin=("tsan", "c09"), args=["--mode", "filter", "--cases", 4 if quick else 250, "--max-fens", 16 if quick else 60]))
